@@ -28,7 +28,7 @@ ASSUMPTIONS = [
     'HITRAN gaps: master temperature grid = union over ranges; inside a range\'s own temperature span linear interpolation, outside zero',
     'HDF5 cross-section files identify the molecule by their mol_name dataset (as written by ExoMol), which is generated already sanitised',
 ]
-REQUIRED = {'cia:overlapping-ranges': 0.02, 'part:xsec': 0.1, 'part:ktable': 0.05, 'part:cia': 0.05, 'part:cache': 0.1}
+REQUIRED = {'cia:overlapping-ranges': 0.006, 'part:xsec': 0.1, 'part:ktable': 0.05, 'part:cia': 0.05, 'part:cache': 0.1}
 
 UNITS = {'bar': 1e5, 'Pa': 1.0, 'kPa': 1000.0, 'mbar': 100.0}
 NAMES = [('H2O', '1H2-16O'), ('CO2', '12C-16O2'), ('CH4', '12C-1H4'), ('NH3', 'NH3'), ('CO', 'CO'), ('TiO', '48Ti-16O')]
@@ -58,9 +58,10 @@ def _case(draw):
         c['weights'] = draw(st.lists(st.floats(0.05, 1.0), min_size=ng, max_size=ng))
         c['gfac'] = draw(st.lists(st.floats(-1.0, 1.0), min_size=ng, max_size=ng))
     if part == 'cia':
+        c['table'] = draw(_table(nwn=draw(st.integers(4, 7))))      # room for two wavenumber ranges
         c['pair'] = draw(st.sampled_from(['H2-H2', 'H2-He', 'N2-N2', 'CO2-CO2']))
         c['split'] = draw(st.sampled_from([False, True, True]))
-        c['interleave'] = draw(st.sampled_from([True, False]))
+        c['interleave'] = draw(st.sampled_from([True, False, True]))
         c['subset'] = draw(st.lists(st.booleans(), min_size=3, max_size=3))
         c['negative'] = draw(st.booleans())
         c['block_order'] = draw(st.sampled_from(['descending', 'ascending', 'rotated']))
